@@ -190,6 +190,11 @@ func (cs c12Case) build(root string) c12Built {
 		doc := map[string]any{"services": map[string]any{c12n("svc"): s}}
 		// a named volume next to the path attribute: its source must never be rewritten
 		s["volumes"] = append(anyList(s["volumes"]), kvm("type", "volume", "source", "named", "target", "/named"))
+		if cs.Noise {
+			// mount types whose source is not a path on the host: left as written
+			s["volumes"] = append(anyList(s["volumes"]), kvm("type", "cluster", "source", "csi-group", "target", "/cluster"), kvm("type", "image", "source", "my/image:tag", "target", "/image"),
+				kvm("type", "npipe", "source", `\\.\pipe\docker_engine`, "target", `\\.\pipe\docker_engine`))
+		}
 		doc["volumes"] = kvm("named", nil)
 		if cs.Noise {
 			// devices that are not the bind device of a `local` driver volume stay as written
@@ -343,6 +348,9 @@ func c12Check(c *Ctx, cs c12Case) *Failure {
 	for _, v := range svc.Volumes {
 		if v.Type == "volume" && v.Source != "named" {
 			return failf("c12:named-volume-rewritten", "%s: named volume source became %q", where, v.Source)
+		}
+		if want, ok := map[string]string{"cluster": "csi-group", "image": "my/image:tag", "npipe": `\\.\pipe\docker_engine`}[v.Type]; ok && v.Source != want {
+			return failf("c12:non-path-mount-source-rewritten:"+v.Type, "%s: the source of the %s mount became %q", where, v.Type, v.Source)
 		}
 	}
 	if cs.Noise {
